@@ -609,6 +609,31 @@ theorem init_bundle_refs (cfg : Cfg) : ∀ ref ∈ bundleRefs (initSteps cfg), r
   rw [bundleRefs_init]
   split <;> simp
 
+/-- The webhook-configuration step REPLACES the whole `webhooks` list (a JSON merge patch replaces a list; it does
+not merge it entry by entry): after a completed step – from ANY store, whatever entries the stored configurations
+held before (entries of another Crossplane version or of a third party, another order, stale bundles, another
+service) – the webhook TLS secret holds a non-empty tls.crt and every declared configuration that declares
+webhooks consists of EXACTLY the manifest's entries, in the manifest's order, each with that certificate as
+caBundle and the configured service. (`(whcKeys d.objs).Nodup`: every configuration is declared once.) -/
+theorem webhook_entries_are_the_manifests (g : Generator) (ref : String) (svc : Svc) (d : Dir) (s t : Store) (n n' : Nat)
+    (hyp : (whcKeys d.objs).Nodup)
+    (h : run sem Plan.allOk 0 ((Step.whcs ref svc d).prog g n) s = (t, some (Res.ok, n'))) :
+    ∃ sec, findSecret t ref = some sec ∧ sec.crt ≠ .empty ∧
+      ∀ f, FileObj.whc f ∈ d.objs → f.hooks ≠ [] →
+        ∃ w, findWhc t f.kind (whcName f) = some w ∧ w.hooks = desiredHooks f sec.crt svc := by
+  rw [run_allOk] at h
+  have h' : evalOk ((Step.whcs ref svc d).prog g n) s = (t, (Res.ok, n')) := by
+    simp only [Prod.mk.injEq, Option.some.injEq] at h
+    exact Prod.ext h.1 h.2
+  have hd : StepDone (.whcs ref svc d) t := step_establishes g n n' (.whcs ref svc d) s t hyp h'
+  obtain ⟨cb, ⟨sec, hs, hcrt, hne⟩, _, hobjs⟩ := hd
+  refine ⟨sec, hs, hcrt ▸ hne, ?_⟩
+  intro f hf hh
+  obtain ⟨f', e, hfix⟩ := hobjs _ hf
+  cases e
+  rw [hcrt]
+  exact whcFix_injected hfix hh
+
 /-! #### non-vacuity: concrete other writers and error classes -/
 
 /-- Somebody installs the requested provider as `their-own` BEFORE our List: it is updated in place. Somebody does
@@ -633,6 +658,20 @@ example :
     (callLogE (semK .other) Env.none (Plan.at 0 .fail) 0 lockStep s).map (fun x => reqLineTag x.1) = ["getLock"] ∧
     (runE (semK .alreadyExists) Env.none (Plan.at 0 .fail) 0 (scStep "ns") wxEmpty) = (wxEmpty, some Res.ok) ∧
     (runE (semK .other) Env.none (Plan.at 0 .fail) 0 (scStep "ns") wxEmpty) = (wxEmpty, some (Res.err "sc")) := by
+  decide
+
+/-- An existing `crossplane` webhook configuration holds an entry the manifest lacks (left by a third party, stale
+bundle, another service) in front of a stale entry of ours: after the step exactly the manifest's entry is stored,
+with the server certificate as bundle and the configured service. -/
+example :
+    let crt : Blob := .cert ⟨11, 1, ["x"], false⟩
+    let s : Store := { wxEmpty with
+      secrets := [⟨"srv", crt, .key 11, .empty, 0, 0⟩],
+      whcs := [⟨.mutating, "crossplane", [⟨"thirdparty.example.org", .junk 8, ⟨"theirs", "kube-system", 8443⟩⟩,
+        ⟨"h0.crossplane.io", .junk 8, ⟨"old", "old", 443⟩⟩], 3⟩] }
+    let d : Dir := ⟨false, [.whc ⟨.mutating, "mutating-webhook-configuration", ["h0.crossplane.io"]⟩]⟩
+    (run sem Plan.allOk 0 ((Step.whcs "srv" ⟨"hooks", "xp", 9443⟩ d).prog stdGen 100) s).1.whcs =
+      [⟨.mutating, "crossplane", [⟨"h0.crossplane.io", crt, ⟨"hooks", "xp", 9443⟩⟩], 3⟩] := by
   decide
 
 /-- the relies of this section are satisfiable: no interference; a peer that is an initialiser -/
